@@ -1,5 +1,6 @@
 import Proofs.AggregateCheck
 import Proofs.AggregateObject
+import Proofs.AggregateArray
 
 /-!
 # C19 — Ensemble aggregators implement weighted mixtures consistently
@@ -241,7 +242,95 @@ theorem C19_shared_namespace_not_reentrant :
     (findFrame 0 (runLocal [] raceMasked)).bind (·.result meanLocSeen) = some (some 4) := by
   decide +kernel
 
+/-! ### the member arrays: class, mask storage, dtype, data under the mask (`Model/AggregateArray.lean`) -/
+
+/-- **the members enter only through their meaning.**  Two lists of member arrays — each all `MaskedArray`s
+or all plain arrays — that hold the same numbers at the same unmasked places (`Arr.cells`) are stacked to the
+same cells, so all four aggregators return the same outputs for them, for all weights: the dtype of a member
+(bool, any integer width, float16/32/64), the way its mask is stored (`nomask` or a mask array) and the data
+stored under its mask do not matter. -/
+theorem C19_member_representation (ys ys' : List Arr) (h : Homogeneous ys) (h' : Homogeneous ys')
+    (hc : ys.map Arr.cells = ys'.map Arr.cells) :
+    stackCells ys = stackCells ys' ∧
+    (∀ ws n, meanArr ws n ys = meanArr ws n ys') ∧
+    (∀ c ws n, catArr c ws n ys = catArr c ws n ys') ∧
+    (∀ c ws n, modeArr c ws n ys = modeArr c ws n ys') := by
+  have e : stackCells ys = stackCells ys' := by
+    rw [stackCells_homogeneous _ h, stackCells_homogeneous _ h', hc]
+  refine ⟨e, ?_, ?_, ?_⟩ <;> intros <;> simp [meanArr, catArr, modeArr, e]
+
+/-- the same for `MixedNormalAggregator` (`np.ma` when every `loc` and every `scale` is a `MaskedArray`) -/
+theorem C19_member_representation_normal (locs scales locs' scales' : List Arr)
+    (h : Homogeneous (locs ++ scales)) (h' : Homogeneous (locs' ++ scales'))
+    (hl : locs.map Arr.cells = locs'.map Arr.cells) (hs : scales.map Arr.cells = scales'.map Arr.cells) :
+    ∀ ws n, normalArr ws n locs scales = normalArr ws n locs' scales' := by
+  intro ws n
+  simp [normalArr, stackNormal_homogeneous _ _ h, stackNormal_homogeneous _ _ h', hl, hs]
+
+/-- **conversions that keep the class and the mask keep every output**: a map `f` on member arrays that
+preserves `isinstance(·, MaskedArray)` and the meaning — `astype` / `np.asanyarray(·, dtype)` to any dtype,
+storing the mask as an array, writing other data under the mask (`C19_member_conversions`) — applied to the
+members of a homogeneous list changes no output of any aggregator. -/
+theorem C19_member_conversion_invariant (f : Arr → Arr) (hf : ∀ a, (f a).ma = a.ma ∧ (f a).cells = a.cells)
+    (ys : List Arr) (h : Homogeneous ys) :
+    stackCells (ys.map f) = ys.map Arr.cells ∧
+    (∀ ws n, meanArr ws n (ys.map f) = meanArr ws n ys) ∧
+    (∀ c ws n, catArr c ws n (ys.map f) = catArr c ws n ys) ∧
+    (∀ c ws n, modeArr c ws n (ys.map f) = modeArr c ws n ys) := by
+  have hh : Homogeneous (ys.map f) := by
+    rcases h with h | h
+    · left; intro a ha
+      obtain ⟨b, hb, rfl⟩ := List.mem_map.1 ha
+      rw [(hf b).1]; exact h b hb
+    · right; intro a ha
+      obtain ⟨b, hb, rfl⟩ := List.mem_map.1 ha
+      rw [(hf b).1]; exact h b hb
+  have hc : (ys.map f).map Arr.cells = ys.map Arr.cells := by
+    rw [List.map_map]; exact List.map_congr_left (fun a _ => (hf a).2)
+  obtain ⟨e, r⟩ := C19_member_representation (ys.map f) ys hh h hc
+  exact ⟨by rw [e, stackCells_homogeneous _ h], r⟩
+
+/-- the conversions in question: dtype casts that keep the subclass, the mask stored as an array, any
+data under the mask. -/
+theorem C19_member_conversions (a : Arr) (d : DType) (vs : List Rat) :
+    ((a.astype d).ma = a.ma ∧ (a.astype d).cells = a.cells) ∧
+    (a.withMaskArray.ma = a.ma ∧ a.withMaskArray.cells = a.cells) ∧
+    ((a.scribbleUnderMask vs).ma = a.ma ∧ (a.scribbleUnderMask vs).cells = a.cells) :=
+  ⟨⟨rfl, cells_astype d a⟩, ⟨ma_withMaskArray a, cells_withMaskArray a⟩, ⟨rfl, cells_scribble vs a⟩⟩
+
+/-- hard one-hot members of `MixedCategoricalAggregator` stored as int64 `MaskedArray`s, two samples of two
+classes; the second sample of member `a` is masked (the data `[0, 1]` under its mask is not a prediction) -/
+def hardA : Arr := ⟨true, .bits [false, false, true, true], .int 64, [1, 0, 0, 1]⟩
+def hardB : Arr := ⟨true, .nomask, .int 64, [0, 1, 1, 0]⟩
+
+/-- **`np.asarray(member, dtype=float64)` is not such a conversion**: it returns a base `ndarray`, the mask is
+gone, the plain namespace is selected and the data under the mask enters the mixture — sample 1 gets
+`loc = [1/2, 1/2]`, uncertainty `1/2` instead of the present member's `[1, 0]`, `0`; the cast that keeps the
+subclass (`astype`) leaves the result unchanged. -/
+theorem C19_asarray_drops_mask :
+    catArr 2 [1, 1] 2 [hardA, hardB]
+      = [⟨some [1 / 2, 1 / 2], some (1 / 2), some 0, some (1 / 2)⟩, ⟨some [1, 0], some 0, some 0, some 0⟩] ∧
+    catArr 2 [1, 1] 2 [hardA.astype (.float 64), hardB.astype (.float 64)] = catArr 2 [1, 1] 2 [hardA, hardB] ∧
+    catArr 2 [1, 1] 2 [hardA.asarray (.float 64), hardB.asarray (.float 64)]
+      = [⟨some [1 / 2, 1 / 2], some (1 / 2), some 0, some (1 / 2)⟩,
+         ⟨some [1 / 2, 1 / 2], some (1 / 2), some 0, some (1 / 2)⟩] ∧
+    -- a list mixing plain and masked members is stacked without masks, too
+    stackCells [hardA, hardB.asarray (.int 64)] = [[some 1, some 0, some 0, some 1], [some 0, some 1, some 1, some 0]] := by
+  decide +kernel
+
 /-! ### non-vacuity and regression witnesses -/
+
+-- member arrays: the same meaning in three representations (int8 with a mask array and 97 under the mask,
+-- float16 with the mask array, float64 without masked entries stored with `nomask`)
+example : Homogeneous [hardA, hardB] := Or.inl (by decide)
+example : [hardA, hardB].map Arr.cells
+    = [(⟨true, .bits [false, false, true, true], .int 8, [1, 0, 97, 97]⟩ : Arr), hardB.withMaskArray.astype (.float 16)].map
+        Arr.cells := by decide +kernel
+example : (hardA.scribbleUnderMask [5, 5, 97, 97]).data = [1, 0, 97, 97] := by decide +kernel
+example : Homogeneous ([hardA] ++ [hardB]) := Or.inl (by decide)
+example : meanArr [1, 3] 2 [⟨true, .bits [true, false], .uint 8, [200, 7]⟩, ⟨true, .nomask, .float 32, [4, 9]⟩]
+    = [⟨some 4, some 0⟩, ⟨some (17 / 2), some (3 / 4)⟩] := by decide +kernel
+
 
 -- weights .7/.2/.1 (as 7/2/1: only ratios matter), member 1 masked
 example : meanAgg [7, 2, 1] [some 1, none, some 4] = ⟨some (11 / 8), some (63 / 64)⟩ := by decide +kernel
